@@ -210,6 +210,17 @@ fn cli_case(cli: &str, dir: &str, idx: u64, text: &str, tts: &[TT]) -> Vec<(Stri
     let _ = std::fs::remove_file(&link);
     std::os::unix::fs::symlink(&target, &link).unwrap();
     let _ = std::fs::create_dir_all(&sub);
+    // an existing EMPTY file is an existing file too
+    let empty = format!("{}/empty_{}.json", dir, idx);
+    std::fs::write(&empty, b"").unwrap();
+    let o = run_cli(cli, &["--lib".into(), "naive".into(), "--grd".into(), "--export".into(), empty.clone(), "-q".into(), input.clone()]);
+    if std::fs::metadata(&empty).map(|m| m.len()).unwrap_or(1) != 0 {
+        out.push(("cli:export-overwrote".into(), "export onto an existing empty file wrote into it".into()));
+    }
+    if o.code != Some(0) {
+        out.push(("cli:export-existing-exit".into(), format!("export onto an existing empty file exits with {:?}", o.code)));
+    }
+    let _ = std::fs::remove_file(&empty);
     for (what, path) in [("existing file", &target), ("symlink to an existing file", &link), ("existing directory", &sub)] {
         let o = run_cli(cli, &["--lib".into(), "naive".into(), "--grd".into(), "--export".into(), path.clone(), "-q".into(), input.clone()]);
         if std::fs::read(&target).ok().as_ref() != Some(&marker) {
